@@ -21,6 +21,11 @@ deriving Repr, DecidableEq
 
 abbrev Img := List (List Pix)          -- rows (position) × columns (scan lines)
 
+/-- the timestamp a pixel is given (`timestamp_mean`): smallest sample timestamp plus the floored mean offset;
+    for the evenly spaced samples of a pixel that is half the span -/
+def Pix.tmean (p : Pix) : Int := p.tmin + (p.tmax - p.tmin) / 2
+
+
 inductive Err where
   | notImplemented | indexError | valueError | runtimeError
 deriving Repr, DecidableEq
@@ -89,6 +94,9 @@ structure KView where
   processed : Bool
   /-- position offset in calibrated units -/
   offset : Rat
+  /-- pixel dwell time of the source in ns (samples per pixel × sample period), what an unprocessed kymograph
+      reads off its info wave -/
+  pixelTimeNs : Int := 0
 deriving Repr
 
 def KView.numLines (v : KView) : Nat := numCols v.img
@@ -254,10 +262,6 @@ def SView.ranges (v : SView) : List (Int × Int) :=
 
 def numColsF (f : Frame) : Nat := (f.head?.map List.length).getD 0
 
-/-- the timestamp a pixel is given (`timestamp_mean`): smallest sample timestamp plus the floored mean offset;
-    for the evenly spaced samples of a pixel that is half the span -/
-def Pix.tmean (p : Pix) : Int := p.tmin + (p.tmax - p.tmin) / 2
-
 /-- `Scan.timestamps`: per-pixel timestamps, same shape as the image -/
 def SView.timestamps (v : SView) : List (List (List Int)) := v.frames.map fun f => f.map fun r => r.map Pix.tmean
 
@@ -354,6 +358,16 @@ def ranges? (s : String) : Option (List (Int × Int)) :=
     | [a, b] => do let a ← a.toInt?; let b ← b.toInt?; some (a, b)
     | _ => none) s
 
+/-- `Kymo.pixel_time_seconds` in ns: from the info wave while the factories are the default ones; for a processed
+    kymograph the difference of the per-pixel timestamps `[1,0]` and `[0,0]` — `NotImplementedError` once the
+    timestamps are gone (time-downsampled), `IndexError` when there is no second pixel -/
+def KView.pixelTime (v : KView) : Except Err Int :=
+  if !v.processed then .ok v.pixelTimeNs
+  else if !v.rangesDefined then .error .notImplemented
+  else match (v.img[0]?).bind (·[0]?), (v.img[1]?).bind (·[0]?) with
+    | some a, some b => .ok (b.tmean - a.tmean)
+    | _, _ => .error .indexError
+
 def showKRes : KRes → String
   | .err e => showErr e
   | .empty => "empty"
@@ -369,6 +383,7 @@ def showKRes : KRes → String
       ++ " offset=" ++ showRat v.offset
       -- a colour without photon data is a zero image of the same shape
       ++ " absent=" ++ toString v.img.length ++ "x" ++ toString (numCols v.img)
+      ++ " pt=" ++ (match v.pixelTime with | .ok t => toString t | .error e => showErr e)
 
 def kop? (s : String) : Option KOp :=
   match s.splitOn ":" with
@@ -407,17 +422,18 @@ def showSRes : SRes → String
 
 
 /-- ops:
-  `c06.kymo <img rows of v:tmin:tmax> <delta> <px p/q> <unit> <pxum p/q|N> <linetime p/q> <scantime p/q> op…`
+  `c06.kymo <img rows of v:tmin:tmax> <delta> <px p/q> <unit> <pxum p/q|N> <linetime p/q> <scantime p/q> <pixeltime ns> op…`
   `c06.scan <frames: rows of v:tmin:tmax pixels, frames separated by |> <delta> <fastRows 0|1> op…` -/
 def handle : List String → Option String
-  | "c06.kymo" :: img :: delta :: px :: unit :: pxum :: lt :: st :: ops => do
+  | "c06.kymo" :: img :: delta :: px :: unit :: pxum :: lt :: st :: pt :: ops => do
     let img ← listListOf? pix? img
     let delta ← int? delta
     let px ← rat? px; let unit ← nat? unit
     let pxum ← if pxum == "N" then some none else (rat? pxum).map some
     let lt ← rat? lt; let st ← rat? st
     let ops ← ops.mapM kop?
-    let v : KView := ⟨img, true, delta, px, unit, pxum, lt, st, false, 0⟩
+    let pt ← int? pt
+    let v : KView := ⟨img, true, delta, px, unit, pxum, lt, st, false, 0, pt⟩
     some (showKRes (runK v ops))
   | "c06.scan" :: frames :: delta :: fastRows :: ops => do
     let frames ← (frames.splitOn "|").mapM (listListOf? pix?)
